@@ -27,12 +27,52 @@ func (c *runCtx) c13Case(kind string, x []byte, limit uint32, lineEnd2 int) {
 	c.stats.note(kind, append([]byte(strconv.Itoa(int(limit))+":"), hdr...), len(hdr), head != "text/plain")
 	c.stats.Results[head]++
 	c.emit("c13", hx(hdr), strconv.Itoa(int(limit)), sv(magic.Csv)+sv(magic.Tsv)+sv(magic.NdJSON), head, kind, strconv.Itoa(lineEnd2))
+	if pan == nil && m != nil && c.caseNo%8 == 5 {
+		c.agree(kind, x, limit, c.caseNo%64 == 5)
+	}
 	if c.stats.Evaluations%499 == 1 {
 		c.stats.sample(fmt.Sprintf("c13 kind=%s limit=%d header=%q -> %s", kind, limit, string(hdr), head))
 	}
 }
 
+// very long lines (beyond any fixed scanner buffer), examined whole and under large limits; judged here (the model
+// would spend minutes on 70 kB of unary arithmetic)
+func c13Long(c *runCtx) {
+	long := "{\"big\":\"" + strings.Repeat("a", 70000) + "\"}"
+	streams := []struct {
+		s    string
+		want bool
+	}{
+		{"{\"id\":1}\n" + long + "\n{\"id\":3}\n[4]\n", true},
+		{long + "\n{\"id\":2}\n", true},
+		{"1\n" + long[:60000] + "\"}\n[3]\n", true},
+		{"{\"id\":1}\n" + long + "\n{\"c\":\nthis line is not json\n", false},
+		{long + "\nnope\n{\"x\":1}\n", false},
+	}
+	for _, st := range streams {
+		x := []byte(st.s)
+		for _, lim := range []uint32{0, 1 << 20, uint32(len(x) + 1)} {
+			if !c.mine(x[:40], []byte(strconv.Itoa(int(lim))), []byte(strconv.Itoa(len(x)))) {
+				continue
+			}
+			m, pan := detectAt(x, lim)
+			head := "PANIC"
+			if pan == nil && m != nil {
+				head = bareType(m.String())
+			}
+			c.stats.note("long-line", append([]byte(strconv.Itoa(int(lim))), x[:60]...), len(x), head != "text/plain")
+			if st.want && head != "application/x-ndjson" {
+				c.propfail("C13", fmt.Sprintf("NDJSON stream with a line of %d bytes examined in full (limit %d) not reported as application/x-ndjson but %s", len(long), lim, head))
+			}
+			if !st.want && head == "application/x-ndjson" {
+				c.propfail("C13", fmt.Sprintf("application/x-ndjson reported (limit %d) although a complete line behind a %d-byte line is damaged", lim, len(long)))
+			}
+		}
+	}
+}
+
 func runC13(c *runCtx) {
+	c13Long(c)
 	r := c.rng
 	cell := func() string {
 		n := r.Intn(6)
